@@ -137,7 +137,7 @@ Fixpoint replay (I : ids) (sendok : nat -> bool) (cf : cfg) (s : nstate) (tm : t
       match event_of tm r with
       | None => let '(bad, s') := replay I sendok cf s tm rest (i + 1)%N in (i :: bad, s')
       | Some e =>
-          let '(s1, mo) := step I sendok cf now s e in
+          let '(s1, mo) := step I sendok cf true true now s e in
           let mo' := filter (fun o => negb (is_notify o)) mo in
           let ok := list_eqb_het (out_match I) mo' xo in
           let '(bad, s') := replay I sendok cf s1 (learn_tokens mo' xo tm) rest (i + 1)%N in
